@@ -1,4 +1,5 @@
 import Gbo.Proofs.HeapInv
+import Gbo.Proofs.HeapSort
 import Gbo.Props.C15
 import Gbo.Model.Sweep
 /-
@@ -81,6 +82,16 @@ theorem queue_push (a : Arena) (U : Nat → Prop) (hv : ValidEvents a U) (q : Ar
 /-- the queue empties exactly when nothing is queued -/
 theorem queue_pop_none (a : Arena) (q : Array Nat) : Heap.pop (evLe a) q = none ↔ q.size = 0 :=
   Heap.pop_none_iff (evLe a) q
+
+/-- **draining the queue lists the events in sweep order**: popping until the queue is empty (nothing pushed in
+    between — what the public `fill_queue` stage hands to the sweep) yields every queued event exactly once,
+    and no event is preceded by one that comes out later -/
+theorem queue_drain_in_sweep_order (a : Arena) (U : Nat → Prop) (hv : ValidEvents a U) (q : Array Nat)
+    (hall : Heap.AllIn U q) (hheap : Heap.IsHeap (evLe a) q) :
+    Heap.Descending (evLe a) (Heap.drain (evLe a) q.size q) ∧
+    (Heap.drain (evLe a) q.size q).length = q.size ∧
+    ∀ v, (Heap.drain (evLe a) q.size q).count v = q.count v :=
+  Heap.drain_spec (evLe a) (evLe_pre a U hv) q.size q (Nat.le_refl _) hall hheap
 
 /-- a concrete queue: the four events of two segments pushed in the wrong order; the first pop is the
     left-most lowest event (index 0), the second the left event of the other segment (index 2) -/
